@@ -1,4 +1,19 @@
----- MODULE SizeParseVerdict ----
+-------------------------- MODULE SizeParseVerdict --------------------------
+(* C25: TLC judges the recorded call/return pairs of the real parsers and validator with SizeParse!Why. *)
 EXTENDS SizeParse
+
+\* cases: [w, cpu, memory, storage (client records), vcpu, vmemory, vstorage (server booleans)]
+Cases == ndJsonDeserialize(IOEnv.SZ_CASES)
+WhyCase(c) == [cpu     |-> Why("cpu", c.w, c.cpu, c.vcpu),
+               memory  |-> Why("memory", c.w, c.memory, c.vmemory),
+               storage |-> Why("storage", c.w, c.storage, c.vstorage)]
+AllOk == [cpu |-> "ok", memory |-> "ok", storage |-> "ok"]
+Verdict ==
+  LET N    == Len(Cases)
+      Bad  == { i \in 1..N : WhyCase(Cases[i]) # AllOk }
+  IN JsonSerialize(IOEnv.SZ_VERDICT,
+       [n |-> N,
+        in_grammar |-> [k \in Kinds |-> Cardinality({ i \in 1..N : Accepts(k, Cases[i].w) })],
+        bad |-> SetToSeq({ [i |-> i, why |-> WhyCase(Cases[i])] : i \in Bad })])
 ASSUME Verdict
-====
+=============================================================================
